@@ -32,6 +32,10 @@ func (c *Ctx) unop(in *ssa.UnOp, x Value) Value {
 	case token.NOT:
 		return Not(x.(*Term))
 	case token.SUB:
+		if sv, ok := x.(*StructVal); ok && len(sv.F) == 2 {
+			// complex negation
+			return &StructVal{F: []Value{FPNeg(sv.F[0].(*Term)), FPNeg(sv.F[1].(*Term))}}
+		}
 		t := x.(*Term)
 		if t.S.K == KFP {
 			return FPNeg(t)
@@ -148,6 +152,20 @@ func (c *Ctx) binop(op token.Token, t types.Type, x, y Value) Value {
 				return &StructVal{F: []Value{FPSub(ar, br), FPSub(ai, bi)}}
 			case token.MUL:
 				return &StructVal{F: []Value{FPSub(FPMul(ar, br), FPMul(ai, bi)), FPAdd(FPMul(ar, bi), FPMul(ai, br))}}
+			case token.QUO:
+				// runtime.complex128div: Smith's algorithm. The runtime's C99 Annex G
+				// corrections for a NaN+NaNi result (infinite operands) are outside the model.
+				c.Ex.noteModel("complex division: Smith's algorithm without the inf/nan corrections of runtime.complex128div")
+				big_ := FPLe(FPAbs(bi), FPAbs(br))
+				r1 := FPDiv(bi, br)
+				d1 := FPAdd(br, FPMul(r1, bi))
+				e1 := FPDiv(FPAdd(ar, FPMul(ai, r1)), d1)
+				f1 := FPDiv(FPSub(ai, FPMul(ar, r1)), d1)
+				r2 := FPDiv(br, bi)
+				d2 := FPAdd(bi, FPMul(r2, br))
+				e2 := FPDiv(FPAdd(FPMul(ar, r2), ai), d2)
+				f2 := FPDiv(FPSub(FPMul(ai, r2), ar), d2)
+				return &StructVal{F: []Value{Ite(big_, e1, e2), Ite(big_, f1, f2)}}
 			}
 		}
 	}
